@@ -80,7 +80,14 @@ def rule_operator_mode(rep: Report, repo: Repo):
         raise AnalysisError(R, "H_eval (conversion of Hamiltonian terms to NumberOrderedForm) not found")
     hev = hev[0]
     guard = getattr(hev, "_parent", None)
-    ok_guard = isinstance(guard, ast.If) and norm(canon(guard.test)) == "operators" and hev in guard.body
+    # the operator list: what NumberOrderedForm.from_expr receives as its second argument inside the conversion
+    opn = {norm(c.args[1]) for c in ast.walk(f) if isinstance(c, ast.Call) and (call_name(c) or "").endswith("NumberOrderedForm.from_expr") and len(c.args) == 2}
+    opn |= {norm(k_.value) for c in ast.walk(f) if isinstance(c, ast.Call) and (call_name(c) or "").endswith("NumberOrderedForm.from_expr")
+            for k_ in c.keywords if k_.arg == "operators"}
+    if len(opn) != 1:
+        raise AnalysisError(R, f"block_diagonalize: the operator list handed to NumberOrderedForm.from_expr is not one local ({sorted(opn)})")
+    OPS = opn.pop()
+    ok_guard = isinstance(guard, ast.If) and norm(canon(guard.test)) == OPS and hev in guard.body
     rep.check(ok_guard, R, f"{MOD}::block_diagonalize the Hamiltonian is converted exactly when operators were found",
               norm(guard.test) if isinstance(guard, ast.If) else "not under a condition", loc(hev))
     scope = Scope(repo.trees[MOD], hev)
@@ -116,7 +123,7 @@ def rule_operator_mode(rep: Report, repo: Repo):
                         if norm(o.value) == "zero":
                             got.add("zero")
                         elif ew is not None and norm(ew[0]) in (ELEMENT, ONE) and norm(kwcalls(ew[2], scope)) in (
-                                f"NumberOrderedForm.from_expr({ew[1]}, operators)", f"NumberOrderedForm.from_expr({ew[1]}, operators=operators)"):
+                                f"NumberOrderedForm.from_expr({ew[1]}, {OPS})", f"NumberOrderedForm.from_expr({ew[1]}, operators={OPS})"):
                             got.add("entrywise NOF of " + ("term" if norm(ew[0]) == ELEMENT else "1x1(term)"))
                         else:
                             got.add("other:" + norm(o.value)[:60])
@@ -157,7 +164,7 @@ def rule_operator_mode(rep: Report, repo: Repo):
     for has_ops in (True, False):
         def atom(n, has_ops=has_ops):
             t = norm(canon(n))
-            if t == "operators":
+            if t == OPS:
                 return has_ops
             if t == "solve_sylvester is None":
                 return True
@@ -181,13 +188,22 @@ def rule_operator_mode(rep: Report, repo: Repo):
                 if all(v == pol for v, (_t, pol) in zip(vals, conds)):
                     chosen.add(rtext(n.value, {}))
         sel[has_ops] = sorted(chosen)
-    ok = sel[True] in (["second_quantization.solve_sylvester_2nd_quant(diagonal)"], ["solve_sylvester_2nd_quant(diagonal)"]) \
-        and sel[False] == ["solve_sylvester_diagonal(diagonal, atol=atol)"]
+    dgs_ = [n for n in own_nodes(f) if isinstance(n, ast.Assign) and isinstance(n.value, ast.Call) and call_name(n.value) == "_extract_diagonal"
+            and isinstance(n.targets[0], ast.Name)]
+    if len(dgs_) != 1:
+        raise AnalysisError(R, "block_diagonalize: the assignment of the extracted energies (`_extract_diagonal(...)`) was not found")
+    DG = dgs_[0].targets[0].id
+    ok = sel[True] in ([f"second_quantization.solve_sylvester_2nd_quant({DG})"], [f"solve_sylvester_2nd_quant({DG})"]) \
+        and sel[False] == [f"solve_sylvester_diagonal({DG}, atol=atol)"]
     rep.check(ok, R, f"{MOD}::block_diagonalize operator problems get the operator Sylvester solver, built from the energies of the same H",
               str(sel), loc(f))
     dg = [n for n in own_nodes(f) if isinstance(n, ast.Assign) and norm(n.targets[0]) == "diagonal"]
     mscope = Scope(repo.trees[MOD], None)
-    ok = len(dg) == 1 and norm(kwcalls(dg[0].value, mscope)) == "_extract_diagonal(H, atol=atol, implicit=use_implicit, operators=operators)" \
+    dg = [n for n in own_nodes(f) if isinstance(n, ast.Assign) and isinstance(n.value, ast.Call) and call_name(n.value) == "_extract_diagonal"]
+    kd = kwcalls(dg[0].value, mscope) if len(dg) == 1 else None
+    kdk = {k_.arg: norm(k_.value) for k_ in kd.keywords} if kd is not None else {}
+    ok = kd is not None and [norm(a_) for a_ in kd.args] == [norm(ctor[0].targets[0]) if ctor else "H"] and kdk.get("atol") == "atol" \
+        and kdk.get("operators") == OPS and "implicit" in kdk \
         and bool(ctor) and ctor[0].lineno < dg[0].lineno
     rep.check(ok, R, f"{MOD}::block_diagonalize the energies are extracted from the converted H with the operator list", norm(dg[0].value) if dg else "", loc(dg[0] if dg else f))
 
